@@ -31,16 +31,26 @@ Definition to_ev (e : pev nat) : ev nat :=
   | PFinNo i => EFinNo nat i | PFinFeas i s nb => EFinFeas nat i s nb | PFinInf i s cs => EFinInf nat i s cs
   | PFinPanic i => EFinPanic nat i | PWake i => EWake nat i end.
 
+(* the subproblems of the harness are ordered like caobab's BABNode: by their DEPTH in the tree only (different nodes of one layer compare
+   equal).  Parents have smaller ids than their children, so one pass fills the depth table. *)
+Fixpoint set_nth (l : list nat) (i v : nat) : list nat :=
+  match l, i with [], _ => [] | _ :: t, O => v :: t | h :: t, S i' => h :: set_nth t i' v end.
+Definition depths (tab : list ptnode) : list nat :=
+  fold_left (fun dep i => match nth i tab TNo with
+                          | TInf cs _ => fold_left (fun d c => set_nth d c (S (nth i dep 0))) cs dep
+                          | _ => dep end) (seq 0 (length tab)) (repeat 0 (length tab)).
+Definition depth_cmp (dep : list nat) (a b : nat) : comparison := Nat.compare (nth a dep 0) (nth b dep 0).
+
 (* replay with the heap-order conformance of every pop *)
-Fixpoint replay_c (tab : list ptnode) (st : state nat nat) (evs : list (pev nat)) (pos : nat) (maxok : bool) : (state nat nat + nat) * bool :=
+Fixpoint replay_c (tab : list ptnode) (dep : list nat) (st : state nat nat) (evs : list (pev nat)) (pos : nat) (maxok : bool) : (state nat nat + nat) * bool :=
   match evs with
   | [] => (inl st, maxok)
   | e :: t =>
     let mo := match e with
-              | PPopSolve _ n ps | PPopBound _ n ps => pop_is_max nat nat Nat.compare st n ps
+              | PPopSolve _ n ps | PPopBound _ n ps => pop_is_max nat nat (depth_cmp dep) st n ps
               | _ => true end in
     match exec nat nat (tf tab) Nat.eqb st (to_ev e) with
-    | Some st' => replay_c tab st' t (S pos) (maxok && mo)
+    | Some st' => replay_c tab dep st' t (S pos) (maxok && mo)
     | None => (inr pos, maxok)
     end
   end.
@@ -84,7 +94,7 @@ Definition outcome_okb (outcome : nat) (failed_some : bool) : bool :=
 Definition check_tree (c : tree_case) : N :=
   let '(tab, k, evs, res, found_flag, outcome, stats) := c in
   let fuel := S (length tab) in
-  let '(fin, maxok) := replay_c tab (init nat nat 0 smin smax k) evs 0 true in
+  let '(fin, maxok) := replay_c tab (depths tab) (init nat nat 0 smin smax k) evs 0 true in
   let cls := consistent tab fuel 0 && negb (has_panic tab fuel 0) in
   let feas := feas_below tab fuel 0 in
   let opt := zmax_list (map snd feas) in
